@@ -12,6 +12,21 @@ All theorems hold for every number of samples `n`, every permutation `π : Equiv
 sample `π i`) and every ordered field `K` (in particular ℚ, where the driver evaluates the same terms, and ℝ).
 The eigensolver and `sqrt` enter as parameters with contracts (`IsTopEig`, `s ≥ 0 ∧ s² = λ`).
 
+## Which clause of the property is proved at which level (and which is covered by tests only)
+
+| clause | proved here / in `Props/C12b.lean` | tests only (`checks/c12.py` pairs) |
+|---|---|---|
+| sample order | pre-matrices of MDS, KPCA (here), PCA, Isomap after Dijkstra (C12b `pcaPre_c06_perm`, `isomapPre_perm`), k-NN lists (`brute_perm`), geodesics (`dijkstra_perm`), triplet assembly, connectivity decision, eigen-system contract (`topEig_perm`, `bottomEig_perm`, C12b `spectralTopEig_perm`) | weight / Laplacian / diffusion matrices of KLLE, KLTSA, HLLE, LE, DM and the feature-space assembly of NPE, LLTSA, LPP (their models belong to C08–C10); cover-tree and VP-tree searches (C02 proves exactness, from which order independence of the *distance lists* follows; the lists themselves only by tests) |
+| rotation / reflection | every kernel value and every distance is unchanged (`gram_rigid`, `sqEuclid_rigid`): MDS, Isomap, LE, DM, KPCA, KLLE, KLTSA, HLLE see the data through these callbacks only, so their whole computation is unchanged | PCA, NPE, LLTSA, LPP (feature-space eigenproblems transform by `R · Rᵀ`; not stated) |
+| translation | distances (`sqEuclid_rigid`): MDS, Isomap, LE, DM; centred kernel matrix (`center_translation`): KPCA; covariance (C12b `pcaPre_c06_translation`): PCA; for KLLE, KLTSA, HLLE, LLTSA the three expressions through which they read the kernel — neighbour-search distance, KLLE local Gram, centred local Gram — (`kernelDistance_translation`, `lleLocalGram_translation`, `localCenteredGram_translation`) | LLTSA's feature-space assembly `X H W H Xᵀ` (F-LLTSA-SHIFT was found by the tests, not by a theorem); NPE, LPP are excluded by the property |
+| scale | MDS (`mdsPre_scale`), linear KPCA (`kpcaPre_scale`), PCA (C12b `pcaPre_c06_scale`), Isomap (C12b `dijkstra_scale`, `isomapPre_scale`), eigen-system and embedding (`topEig_scale`, `embedding_scale`) | — |
+| call history | `no_hidden_state`: a **lint** — `decide` over a table produced by a trusted token-level scanner (`tools/translate_statics.py`, with its own regression snippets run on every check); the theorem says no more than "the scanner found nothing it cannot place" | the history differential (bit-identical to a fresh process) |
+
+`IsTopEig` / `IsBottomEig` of `Model/Equivariance.lean` quantify over *eigenvectors* orthogonal to the returned ones;
+C05/C06 use the stronger variational `Spectral.IsTopEig` (quadratic form on the orthogonal complement).  C12b proves
+that the variational notion implies this one (`isTopEig_of_spectral`) and transports the variational notion along
+permutations and non-negative scalings too (`spectralTopEig_perm`, `spectralTopEig_scale`, `spectralBottomEig_perm`).
+
 F-CONN-DIR (the decision of `is_connected` was reachability from sample 0 along the edges only and depended on which
 sample comes first; shared with C03) has been repaired in /repo: `connectivityDecision_perm` is the full statement
 about the code as it now stands, `reachFromFirst_perm_refuted` keeps the Lean-checked witness against the old
@@ -149,6 +164,25 @@ theorem center_translation (X : Mat n D K) (t : Vec D K) :
     exact gram_translate X t i j
   rw [h]
   exact centerMatrix_add_rank (gram X) (fun i => sumFin D fun c => X i c * t c) (sumFin D fun c => t c * t c)
+
+/-- KLLE, KLTSA, HLLE, NPE, LLTSA search their neighbours with the kernel-induced distance
+    `κ(l,l) − 2κ(l,r) + κ(r,r)`: for the linear kernel it is the squared Euclidean distance, unchanged by a translation -/
+theorem kernelDistance_translation (X : Mat n D K) (t : Vec D K) (l r : Fin n) :
+    kernelSqDist (gram (translate X t)) l r = kernelSqDist (gram X) l r ∧
+    kernelSqDist (gram X) l r = sqEuclid X l r :=
+  ⟨kernelSqDist_translate X t l r, kernelSqDist_gram X l r⟩
+
+/-- KLLE / NPE: the local Gram matrix `κ(q,q) − κ(q,a) − κ(q,b) + κ(a,b)` from which the reconstruction weights are
+    solved does not see a translation (any query `q`, any neighbour list) -/
+theorem lleLocalGram_translation {k : Nat} (X : Mat n D K) (t : Vec D K) (q : Fin n) (nb : Fin k → Fin n) :
+    lleLocalGram (gram (translate X t)) q nb = lleLocalGram (gram X) q nb :=
+  lleLocalGram_translate X t q nb
+
+/-- KLTSA / LLTSA / HLLE: the centred local Gram matrix whose eigenvectors span the local tangent space does not see
+    a translation (any neighbour list) -/
+theorem localCenteredGram_translation {k : Nat} (X : Mat n D K) (t : Vec D K) (nb : Fin k → Fin n) :
+    localCenteredGram (gram (translate X t)) nb = localCenteredGram (gram X) nb :=
+  localCenteredGram_translate X t nb
 
 /-! ## scale -/
 
